@@ -63,6 +63,26 @@ def run(chk):
                                                               {"op": op, "token": [97], "amount": [1]}, {"op": "read_card"}],
                              "plan": {"exchanges": [okp, okp, dict(okp, fault={"pos": pos, "kind": "silence"})],
                                       "default": dict(okp, fault={"pos": pos, "kind": "silence"})}})
+    # the largest values the configuration can hold (usize::MAX open transactions, ...) with the terminal silent in each exchange of
+    # configure and of the clean-up: no configuration value enters a timeout
+    big = 2 ** 64 - 1
+    for cfg in ({"max": big}, {"max": 2 ** 32}, {"max": 2 ** 31 - 1, "pre": [9] * 12}, {"max": 65536, "read_card_timeout": 255}):
+        for k in range(0, 5):
+            for pos in (0, 1):
+                sil = dict(okp, fault={"pos": pos, "kind": "silence"})
+                extremes.append({"config": cfg, "calls": [{"op": "configure"}], "plan": {"exchanges": [okp] * k, "default": sil}})
+                extremes.append({"config": cfg, "calls": [{"op": "begin", "token": [97]}, {"op": "commit", "token": [97], "amount": [1]}],
+                                 "plan": {"exchanges": [okp] * (k + 1), "default": sil}})
+    # an exchange of configure refused with any abort code, and a terminal that answers nothing (or an acknowledgement and an intermediate
+    # status and then nothing) from then on - whatever the client decides to try next
+    stall_mid = dict(okp, inter=1, fault={"pos": 2, "kind": "silence"})
+    for code in range(256):
+        for k in (0, 1, 2):
+            if (code + k) % 3 and code not in (0xc2, 0x6a, 0xa0, 0xb4, 0xfc, 0x6c):
+                continue
+            for st in (stall1, stall_mid, dict(okp, fault={"pos": 0, "kind": "silence"})):
+                extremes.append({"config": {"terminal_id": "11112222"}, "calls": [{"op": "configure"}],
+                                 "plan": {"exchanges": [okp] * k + [{"o": "abort", "code": code}], "default": st}})
     total = 0
     for label, binary in (("debug", dbg), ("release", rel)):
         out = cl.run_scenarios(binary, sc + extremes, wd, "c10" + label)
